@@ -332,7 +332,13 @@ def ruleDateDOW(ts: datetime, date: Time, dow: Time) -> Time:
 def ruleLatentDOM(ts: datetime, dom: Time) -> Time:
     dm = ts + relativedelta(day=dom.day)
     if dm <= ts:
-        dm += relativedelta(months=1)
+        dm = ts + relativedelta(months=1, day=dom.day)
+    # relativedelta clips the day to the length of the month (31 -> 30 Nov):
+    # move on to the next month that does have this day
+    for _ in range(2):
+        if dm.day == dom.day:
+            break
+        dm += relativedelta(months=1, day=dom.day)
     return Time(year=dm.year, month=dm.month, day=dm.day)
 
 
